@@ -37,6 +37,33 @@ def run(root, timeout=3000):
     with open("/root/.vp/BASELINE.json") as f:
         stable = json.load(f)["stable_pass"]
     missing = [t for t in stable if t not in passed]
+    # a pinned test that failed once is re-run on its own (machine load makes the
+    # hypothesis deadline tests flaky); it counts as broken only if it fails again
+    for attempt in range(2):
+        if not missing or len(missing) > 25:
+            break
+        ids = []
+        for t in missing:
+            cls, name = t.split("::", 1)
+            ids.append(cls.replace(".", "/") + ".py::" + name)
+        fd, junit2 = tempfile.mkstemp(prefix="junit-", suffix=".xml", dir="/tmp")
+        os.close(fd)
+        try:
+            subprocess.run(
+                ["/venv/bin/python", "-m", "pytest", "-q", "-p", "no:cacheprovider", "--timeout=900", "-o", "addopts=", f"--junitxml={junit2}"] + ids,
+                cwd=root, env=env, capture_output=True, text=True, timeout=timeout,
+            )
+            for tc in ET.parse(junit2).getroot().iter("testcase"):
+                if not any(ch.tag in ("failure", "error", "skipped") for ch in tc):
+                    passed.add(f"{tc.get('classname')}::{tc.get('name')}")
+        except Exception:
+            pass
+        finally:
+            try:
+                os.remove(junit2)
+            except OSError:
+                pass
+        missing = [t for t in stable if t not in passed]
     return missing, tail, len(stable)
 
 
